@@ -18,3 +18,78 @@ theorem C05_format_total (cfg : Config) (wd : String → Nat) (root : Node) :
   | error r => exact Or.inr ⟨r, rfl⟩
 
 end Typstyle
+
+namespace Typstyle
+open Pretty
+
+/-- A computation never fails at a panic site of the implementation. -/
+def NoPanic {α : Type} (x : M α) : Prop := ∀ s site, x.run s ≠ .error (.panic site)
+
+theorem NoPanic.pure {α : Type} (a : α) : NoPanic (pure a : M α) := by
+  intro s site h; cases h
+
+theorem NoPanic.bind {α β : Type} {x : M α} {f : α → M β} (hx : NoPanic x) (hf : ∀ a, NoPanic (f a)) :
+    NoPanic (x >>= f) := by
+  intro s site h
+  have hb : (x >>= f).run s = (match x.run s with | .ok (a, s1) => (f a).run s1 | .error e => .error e) := rfl
+  rw [hb] at h
+  cases hxr : x.run s with
+  | error e => rw [hxr] at h; simp only at h; cases h; exact hx s site hxr
+  | ok p => obtain ⟨a, s1⟩ := p; rw [hxr] at h; exact hf a s1 site h
+
+/-- `get_follow_leading(text).unwrap()` (comment.rs:71) cannot fail where it is called: the plain
+alignment is only chosen when some continuation line does not start with `*`, so there is a
+continuation line.  `unreachable!` (comment.rs:24) is not reached for a comment node.  Hence the
+comment converter has no reachable panic site — for every comment text whatsoever (any Unicode, any
+line-ending style, any indentation). -/
+theorem C05_comment_conversion_never_panics (e : Env) (n : ANode) (hk : isCommentKind n.kind = true) :
+    NoPanic (convComment e n) := by
+  unfold convComment
+  split
+  · exact NoPanic.pure _
+  · split
+    · dsimp only
+      split
+      · exact NoPanic.pure _
+      · split
+        · exact NoPanic.pure _
+        · rename_i hb
+          refine NoPanic.bind ?_ (fun d => NoPanic.pure _)
+          unfold alignMultiline
+          split
+          · rename_i hfl
+            -- no continuation line ⇒ the bullet test is vacuously true: contradiction
+            exfalso
+            apply hb
+            unfold followLeading at hfl
+            split at hfl
+            · rename_i hd
+              simp [hd]
+            · cases hfl
+          · exact NoPanic.pure _
+    · rename_i h1 h2
+      exfalso
+      simp only [isCommentKind, Bool.or_eq_true, beq_iff_eq] at hk
+      rcases hk with h | h
+      · exact h1 (by simp [h])
+      · exact h2 (by simp [h])
+
+/-- The byte slice `&line[leading..]` of `align_multiline` is on a character boundary: `leading`
+is a minimum over counts of leading ASCII blanks, so the model's `drop leading` on characters removes
+exactly `leading` one-byte characters whenever the line has at least that many leading blanks. -/
+theorem C05_leading_blanks_are_single_bytes (l : List Char) :
+    ((l.takeWhile (· == ' ')).map Char.utf8Size).sum = (l.takeWhile (· == ' ')).length := by
+  induction l with
+  | nil => rfl
+  | cons c cs ih =>
+    simp only [List.takeWhile_cons]
+    split
+    · rename_i h
+      have hc : c = ' ' := by simpa using h
+      subst hc
+      simp only [List.map_cons, List.sum_cons, List.length_cons, ih]
+      have : Char.utf8Size ' ' = 1 := by decide
+      omega
+    · rfl
+
+end Typstyle
